@@ -115,6 +115,11 @@ def trans_groups(tier, seed):
         if tier == "quick" and isa in ("scalar", "avx"):
             continue
         blocks = [(1, 1)] if V == 1 else [(r, c) for r in (1, 2, 3) for c in (1, 2, 3)]
+        if tier == "quick" and V != 1:
+            # every block-size pair at least once across the four vectorised configurations
+            others = [b for b in blocks if b != (1, 1)]
+            ci = [c[:2] for c in TRANS_CFGS].index((isa, sz))
+            blocks = [(1, 1)] + [others[(2 * ci + k) % 8] for k in range(3 if ci % 2 == 0 else 2)]
         for (nr, nc) in blocks:
             ib, ob = V * nc, V * nr
             calls = []
@@ -178,7 +183,7 @@ def run(tier, seed):
              "(or one metafunction dump) per (configuration, entry point, argument kind, permutation, shape); compared with the Lean model on the "
              "final placement of every source token, the order in which the source is read, the order of stores (transpose), read sets, chosen "
              "width and declared result extents; non-trivial = the permutation is not the identity / the matrix is not a vector",
-        nontrivial=nontrivial, per_tu=40)
+        nontrivial=nontrivial, per_tu=80)
 
 def sym_call_of(inp):
     d = symrun.kv(inp)
